@@ -44,6 +44,7 @@ type HarnessCfg struct {
 	Race        bool              `json:"race"`
 	Known       map[string]string `json:"known"` // known-finding id -> description
 	MonitorGlobals bool           `json:"monitor_globals"`
+	NoPkgInit      bool           `json:"no_pkg_init"`
 }
 
 type HarnessFile struct {
@@ -57,6 +58,7 @@ type World struct {
 	ssaPkgs         map[string]*ssa.Package
 	harnessPkgs     map[string]bool
 	stubs           map[string]*ssa.Function
+	stubsByPkg      map[string]map[string]*ssa.Function
 	cfg             *HarnessFile
 	errorStringPtrT types.Type
 	errorIface      *types.Interface
@@ -180,7 +182,12 @@ func loadWorld(repoDir, verifDir string, pkgDirs []string) (*World, error) {
 		w.structFieldT = rp.Type("StructField").Type()
 	}
 	// stubs
+	w.stubsByPkg = map[string]map[string]*ssa.Function{}
 	for callee, stub := range w.cfg.Stubs {
+		forPkg := ""
+		if i := strings.LastIndex(callee, "@"); i >= 0 {
+			callee, forPkg = callee[:i], callee[i+1:]
+		}
 		parts := strings.SplitN(stub, ".", 2)
 		sp := w.ssaPkgs[repoMod+"/"+parts[0]]
 		if sp == nil {
@@ -190,7 +197,14 @@ func loadWorld(repoDir, verifDir string, pkgDirs []string) (*World, error) {
 		if f == nil {
 			return nil, fmt.Errorf("stub %s for %s not found", stub, callee)
 		}
-		w.stubs[callee] = f
+		if forPkg != "" {
+			if w.stubsByPkg[forPkg] == nil {
+				w.stubsByPkg[forPkg] = map[string]*ssa.Function{}
+			}
+			w.stubsByPkg[forPkg][callee] = f
+		} else {
+			w.stubs[callee] = f
+		}
 	}
 	w.loadTime = time.Since(t0)
 	return w, nil
@@ -568,6 +582,9 @@ func newHarnessRun(w *World, cfg *HarnessCfg, tier string, args []int, seed int6
 		repoMod + "/in_toto",
 		repoMod + "/" + cfg.Pkg,
 	} {
+		if cfg.NoPkgInit && pp == repoMod+"/"+cfg.Pkg {
+			continue
+		}
 		if p := w.ssaPkgs[pp]; p != nil {
 			if f := p.Func("init"); f != nil {
 				dup := false
